@@ -34,6 +34,9 @@ pub struct Outcome {
     pub rebinds: Vec<(u64, usize, SocketAddr)>,
     /// what the evil endpoint injected (C04)
     pub injection: Option<crate::evil::InjectionInfo>,
+    /// (own block, block handed to TLS) per TLS session: the server's sessions / the clients' sessions
+    pub tp_server: Vec<(Vec<u8>, Vec<u8>)>,
+    pub tp_clients: Vec<(Vec<u8>, Vec<u8>)>,
 }
 
 impl Outcome {
@@ -208,21 +211,25 @@ pub struct Extras {
     pub no_payload_check: bool,
 }
 
-fn start_server(handle: &Handle, cfg: &EndpointCfg, seed: u64, rec: Recorder, resets: bool, evil: Option<crate::evil::Evil>) -> Server {
+pub type TpArg = (Option<crate::scenario::TpRewrite>, crate::tptls::TpLog);
+
+fn start_server(handle: &Handle, cfg: &EndpointCfg, seed: u64, rec: Recorder, resets: bool, evil: Option<crate::evil::Evil>, tp: TpArg) -> Server {
     if resets {
-        start_server_with::<true>(handle, cfg, seed, rec, evil)
+        start_server_with::<true>(handle, cfg, seed, rec, evil, tp)
     } else {
-        start_server_with::<false>(handle, cfg, seed, rec, evil)
+        start_server_with::<false>(handle, cfg, seed, rec, evil, tp)
     }
 }
 
-fn start_server_with<const R: bool>(handle: &Handle, cfg: &EndpointCfg, seed: u64, rec: Recorder, evil: Option<crate::evil::Evil>) -> Server {
+fn start_server_with<const R: bool>(handle: &Handle, cfg: &EndpointCfg, seed: u64, rec: Recorder, evil: Option<crate::evil::Evil>, tp: TpArg) -> Server {
+    let tls = s2n_quic::provider::tls::default::Server::builder().with_certificate(certificates::CERT_PKCS1_PEM, certificates::KEY_PKCS1_PEM).unwrap().build().unwrap();
+    let tls = crate::tptls::TpTls { endpoint: tls, rewrite: tp.0, log: tp.1 };
     let b = Server::builder()
         .with_stateless_reset_token(TokenGen::<R>(seed ^ 0x70c))
         .unwrap()
         .with_io(io_of(handle, cfg))
         .unwrap()
-        .with_tls((certificates::CERT_PKCS1_PEM, certificates::KEY_PKCS1_PEM))
+        .with_tls(tls)
         .unwrap()
         .with_event(rec.clone())
         .unwrap()
@@ -240,21 +247,23 @@ fn start_server_with<const R: bool>(handle: &Handle, cfg: &EndpointCfg, seed: u6
     }
 }
 
-fn start_client(handle: &Handle, cfg: &EndpointCfg, seed: u64, rec: Recorder, resets: bool, evil: Option<crate::evil::Evil>) -> Client {
+fn start_client(handle: &Handle, cfg: &EndpointCfg, seed: u64, rec: Recorder, resets: bool, evil: Option<crate::evil::Evil>, tp: TpArg) -> Client {
     if resets {
-        start_client_with::<true>(handle, cfg, seed, rec, evil)
+        start_client_with::<true>(handle, cfg, seed, rec, evil, tp)
     } else {
-        start_client_with::<false>(handle, cfg, seed, rec, evil)
+        start_client_with::<false>(handle, cfg, seed, rec, evil, tp)
     }
 }
 
-fn start_client_with<const R: bool>(handle: &Handle, cfg: &EndpointCfg, seed: u64, rec: Recorder, evil: Option<crate::evil::Evil>) -> Client {
+fn start_client_with<const R: bool>(handle: &Handle, cfg: &EndpointCfg, seed: u64, rec: Recorder, evil: Option<crate::evil::Evil>, tp: TpArg) -> Client {
+    let tls = s2n_quic::provider::tls::default::Client::builder().with_certificate(certificates::CERT_PKCS1_PEM).unwrap().build().unwrap();
+    let tls = crate::tptls::TpTls { endpoint: tls, rewrite: tp.0, log: tp.1 };
     let b = Client::builder()
         .with_stateless_reset_token(TokenGen::<R>(seed ^ 0x70c))
         .unwrap()
         .with_io(io_of(handle, cfg))
         .unwrap()
-        .with_tls(certificates::CERT_PKCS1_PEM)
+        .with_tls(tls)
         .unwrap()
         .with_event(rec.clone())
         .unwrap()
@@ -387,6 +396,9 @@ pub fn run_with(sc: &Scenario, extras: Extras) -> Outcome {
 
     let evil_shared: crate::evil::EvilShared = Default::default();
     let evil_out = evil_shared.clone();
+    let tp_server: crate::tptls::TpLog = Default::default();
+    let tp_clients: crate::tptls::TpLog = Default::default();
+    let (tp_server_out, tp_clients_out) = (tp_server.clone(), tp_clients.clone());
     let sockets: Sockets = Default::default();
     SOCKETS.with(|s| *s.borrow_mut() = Some(sockets.clone()));
     let mut executor = Executor::new(net, sc.seed);
@@ -408,7 +420,7 @@ pub fn run_with(sc: &Scenario, extras: Extras) -> Outcome {
             app.borrow_mut().handles = vec![None; sc.clients.len()];
 
             // server first: its address is the first one generated
-            let mut server = start_server(&handle, &sc.server, sc.seed ^ 0x5e, Recorder { ep: 0, trace: trace.clone() }, sc.stateless_reset, sc.evil.filter(|e| !e.client).map(|e| crate::evil::Evil::new(e, 0, sc.clients[0].endpoint.clone(), trace.clone(), evil_shared.clone())));
+            let mut server = start_server(&handle, &sc.server, sc.seed ^ 0x5e, Recorder { ep: 0, trace: trace.clone() }, sc.stateless_reset, sc.evil.filter(|e| !e.client).map(|e| crate::evil::Evil::new(e, 0, sc.clients[0].endpoint.clone(), trace.clone(), evil_shared.clone())), (sc.tp.clone().filter(|t| t.side == Side::Server), tp_server.clone()));
             let server_addr = server.local_addr().unwrap();
             net_shared.lock().unwrap().server_addr = Some(server_addr);
             addrs.lock().unwrap().0 = Some(server_addr);
@@ -430,7 +442,7 @@ pub fn run_with(sc: &Scenario, extras: Extras) -> Outcome {
 
             let mut client_addrs = vec![];
             for (i, c) in sc.clients.iter().enumerate() {
-                let client = start_client(&handle, &c.endpoint, sc.seed ^ (0xc1 + i as u64), Recorder { ep: i + 1, trace: trace.clone() }, sc.stateless_reset, sc.evil.filter(|e| e.client && i == 0).map(|e| crate::evil::Evil::new(e, 1, sc.server.clone(), trace.clone(), evil_shared.clone())));
+                let client = start_client(&handle, &c.endpoint, sc.seed ^ (0xc1 + i as u64), Recorder { ep: i + 1, trace: trace.clone() }, sc.stateless_reset, sc.evil.filter(|e| e.client && i == 0).map(|e| crate::evil::Evil::new(e, 1, sc.server.clone(), trace.clone(), evil_shared.clone())), (sc.tp.clone().filter(|t| t.side == Side::Client && i == 0), tp_clients.clone()));
                 let local = client.local_addr().unwrap();
                 client_addrs.push(local);
                 trace.lock().unwrap().addr_client.insert(local, i);
@@ -602,7 +614,9 @@ pub fn run_with(sc: &Scenario, extras: Extras) -> Outcome {
         (a.0.unwrap(), a.1.clone())
     };
     let injection = evil_out.lock().unwrap().done.clone();
-    let out = Outcome { recs, net, app, end_us, capped, server_addr, client_addrs, rebinds, injection };
+    let tp_server = std::mem::take(&mut *tp_server_out.lock().unwrap());
+    let tp_clients = std::mem::take(&mut *tp_clients_out.lock().unwrap());
+    let out = Outcome { recs, net, app, end_us, capped, server_addr, client_addrs, rebinds, injection, tp_server, tp_clients };
     if std::env::var("VERIF_DUMP").is_ok() {
         dump(&out);
     }
